@@ -11,7 +11,8 @@ import threading
 LARGE_LOCK = threading.Semaphore(2)
 BASE = json.load(open("/root/.vp/BASELINE.json"))
 STABLE = set(BASE["stable_pass"])
-OUT = "/tmp/mw/confirm"
+ROOT = os.environ.get("MW_ROOT", "/tmp/mw")      # round 1: /tmp/mw, round 2: /tmp/mw2
+OUT = f"{ROOT}/confirm"
 os.makedirs(OUT, exist_ok=True)
 ENV = dict(os.environ, MPLBACKEND="Agg", OMP_NUM_THREADS="2", OPENBLAS_NUM_THREADS="2")
 
@@ -27,8 +28,8 @@ def one(item):
     res_path = f"{OUT}/{tag}.json"
     if os.path.exists(res_path):
         return tag, json.load(open(res_path))
-    src = f"/tmp/mw/{prop}/mutants"
-    wt = f"/tmp/mw/confirm_wt_{tag}"
+    src = f"{ROOT}/{prop}/mutants"
+    wt = f"{ROOT}/confirm_wt_{tag}"
     res = {"mutant": tag, "t0": time.time()}
     sh(f"git -C /repo worktree remove --force {wt}")
     rc, out = sh(f"git -C /repo worktree add --detach {wt} HEAD")
